@@ -1,9 +1,9 @@
 SPECIFICATION Spec
 CONSTANTS
   MaxLen = 3
-  K = 3
-  MatIds = {"ident", "asym"}
-  GapSet <- GapsMid
+  K = 2
+  MatIds = {"ident", "zero", "neg", "asym", "cross", "steep"}
+  GapSet <- GapsFull
 INVARIANT InvScoreIsOptimum
 INVARIANT InvTracesOptimal
 INVARIANT InvGlobalComplete
